@@ -26,7 +26,7 @@ from allmydata.storage.http_client import (StorageClient, StorageClientImmutable
                                            StorageClientGeneral, ClientException, TestWriteVectors, TestVector,
                                            WriteVector, ReadVector)
 from allmydata.storage.http_common import swissnum_auth_header               # noqa: E402
-from allmydata.storage.common import si_b2a                                   # noqa: E402
+from allmydata.storage.common import si_b2a, storage_index_to_dir                                   # noqa: E402
 from allmydata.interfaces import BadWriteEnablerError                         # noqa: E402
 from engines.storesim import pat_bytes, si_of, secret_of                      # noqa: E402
 
@@ -116,8 +116,15 @@ def gen_auth(seed, tier):
     W = "workload"
     ops = [["legit-upload-start", 0, 2, 100], ["legit-mutable", 1]]
     for i in range(ch.randint(W, "nops", 4, 24)):
-        k = ch.weighted(W, ("k", i), [("attack", 10), ("legit-write", 2), ("legit-upload-start", 1), ("legit-finish", 1), ("legit-read", 1)])
-        if k == "attack":
+        k = ch.weighted(W, ("k", i), [("attack", 10), ("legit-write", 2), ("legit-upload-start", 1), ("legit-finish", 1), ("legit-read", 1), ("overlap-create", 1.2)])
+        if k == "overlap-create":
+            # another client (right swissnum, its own well-formed secrets) asks to create shares of a storage index where an
+            # upload is in progress, naming some of the same share numbers, with a drawn Accept header (the request may be refused
+            # late, after buckets were made): the first uploader's shares need the first uploader's secret to be touched
+            ops.append(["overlap-create", ch.randrange(W, ("si", i), 3), sorted(ch.sample(W, ("oshs", i), range(4), ch.randint(W, ("onsh", i), 1, 3))),
+                        ch.pick(W, ("oaccept", i), ["application/cbor", "application/json", "application/json", "text/html", None, "*/*"]),
+                        ch.pick(W, ("osize", i), [10, 50, 100, 300])])
+        elif k == "attack":
             ops.append(["attack", ch.pick(W, ("route", i), list(range(len(ROUTES))) + [8, 8, 1, 2]), ch.pick(W, ("auth", i), AUTH_W), ch.pick(W, ("xauth", i), XAUTH_W),
                         ch.randrange(W, ("si", i), 3), ch.randrange(W, ("sh", i), 3), ch.randrange(W, ("x", i), 1 << 30)])
         elif k == "legit-upload-start":
@@ -194,6 +201,48 @@ def exec_auth(case):
         elif k == "legit-read":
             st, r = rig.drive(rig.imm.list_shares(si_of(op[1])))
             probe("legit-read")
+        elif k == "overlap-create":
+            _, si_i, oshs, accept, osize = op
+            live_up = sorted(kx for kx, u in uploads.items() if u["written"] < u["size"])
+            if live_up:
+                si_i = live_up[osize % len(live_up)][0]         # aim at a storage index with an upload really in progress
+            tsi = si_of(si_i)
+            mine = secret_of("upload", 31337)
+            h2 = Headers()
+            h2.addRawHeader("Authorization", swissnum_auth_header(SWISS))
+            for nm_, val_ in (("upload-secret", mine), ("lease-renew-secret", good_secret("renew", 8)), ("lease-cancel-secret", good_secret("cancel", 8))):
+                h2.addRawHeader("X-Tahoe-Authorization", nm_.encode() + b" " + b64encode(val_))
+            h2.addRawHeader("Content-Type", "application/cbor")
+            if accept is not None:
+                h2.addRawHeader("Accept", accept)
+
+            def victims():
+                ups_ = rig.http._uploads._uploads.get(tsi)
+                out = {}
+                if ups_ is not None:
+                    for sh_, sec_ in ups_.upload_secrets.items():
+                        if sec_ != mine:
+                            p_ = os.path.join(rig.ss.incomingdir, storage_index_to_dir(tsi), "%d" % sh_)
+                            out[sh_] = (sec_, open(p_, "rb").read() if os.path.exists(p_) else None)
+                return out
+            v0 = victims()
+            code, rbody = rig.raw("POST", "/storage/v1/immutable/" + si_b2a(tsi).decode("ascii"), h2,
+                                  cbor2.dumps({"share-numbers": set(oshs), "allocated-size": osize}))
+            v1 = victims()
+            probe("overlap-create-%s" % code)
+            if v0:
+                probe("overlap-create-on-live-upload")
+            for sh_, (sec_, blob_) in sorted(v0.items()):
+                if v1.get(sh_) != (sec_, blob_):
+                    bad("foreign-create-touched-upload", "POST immutable/<si> naming shares %r (Accept: %r, answered %r) by a client with its own secrets %s the in-progress "
+                        "upload of share %d, which was started under another upload secret" % (
+                            oshs, accept, code, "removed" if sh_ not in v1 else "changed", sh_))
+                    break
+            # resync our view of the legitimate uploads
+            for key, u in list(uploads.items()):
+                ups = rig.http._uploads._uploads.get(si_of(key[0]))
+                if (ups is None or key[1] not in ups.shares) and u["written"] < u["size"]:
+                    u["written"] = u["size"]
         elif k == "attack":
             _, ri, auth, xauth, si_i, sh, x = op
             method, path, bodykind = ROUTES[ri]
